@@ -3,6 +3,7 @@ import Amgcl.Proofs.RelaxGS
 import Amgcl.Proofs.RelaxCheb
 import Amgcl.Proofs.RelaxIlu
 import Amgcl.Proofs.RelaxCheck
+import Amgcl.Model.RelaxIluk
 import Mathlib.Algebra.Field.Rat
 import Mathlib.Algebra.Order.Ring.Rat
 /-!
@@ -384,6 +385,33 @@ theorem ilu0_sweep (ω : K) (F : IluFactors K) (A : CRS K) (f x t : Vec K) :
 
 end ilu
 
+/-! ## ILU(k) and ILUP as written
+
+`Model/RelaxIluk.lean` mirrors `iluk.hpp` (single pass, contributions of level `> k` to a position without a slot are
+discarded) and `ilup.hpp` (ILU(0) of `A` padded to the pattern of `A^(k+1)`).  The sweeps are the ILU sweeps, so
+everything the cycle needs holds for them too.
+
+**Not a theorem — the clause "`(LU)_ij = a_ij` on the level-of-fill `≤ k` pattern" is FALSE for `iluk.hpp` as
+written** (`iluk_not_on_pattern_counterexample` below, known finding `C06-iluk-dropped-contributions`).  What holds
+for ILU(k) is decided per explored input by the checker `luOnPatternb` (sound by `lu_on_pattern_sound`), and the
+harness separates the known defect from any other deviation.  Open: a general theorem "if no contribution is
+discarded (in particular `k ≥ n`) then the identity holds on the admitted pattern" is not proved. -/
+section iluk
+variable {K : Type} [Field K] [DecidableEq K]
+
+theorem iluk_affine_scratch_indep (k : Nat) (ω : K) (F : IluFactors K) (A : CRS K) :
+    Smoother.Good (iluk k ω) F A := by
+  obtain ⟨h1, h2, h3, h4⟩ := iluSweep_facts ω F A
+  exact ⟨h1, h1, h2, h2, h3, h3, h4, h4⟩
+
+theorem iluk_fixed_point (k : Nat) (ω : K) (A : CRS K) (F : IluFactors K) (f x t : Vec K)
+    (hx : x.size = A.nrows) (hf : f.size = A.nrows) (h : ∀ i, i < A.nrows → rowDot (A.row i) x = f.getD i 0) :
+    ((iluk k ω).applyPre F A f x t).1 = x ∧ ((iluk k ω).applyPost F A f x t).1 = x :=
+  ⟨(iluk_affine_scratch_indep k ω F A).pre_fixed f x t hx hf h,
+   (iluk_affine_scratch_indep k ω F A).post_fixed f x t hx hf h⟩
+
+end iluk
+
 /-! ## V-grade: soundness of the output checkers used for ILU(k), ILUP, ILUT and SPAI-1
 
 These smoothers are not modelled.  The harness reads the factors (`L`, `U`, inverted `D`) resp. the matrix `M` the
@@ -486,6 +514,24 @@ example := ilu_solve_serial_inverse exF (by decide) (by decide) (by decide) (by 
 example := lu_exact_inverse exA exF (by decide +kernel) (by decide) (by decide) (by decide) (by decide) rfl rfl rfl rfl
   exF_D #[1, 2, 3] rfl 0 (by decide)
 example := ilu0_fixed_point (1 : ℚ) exA exF (by exact exA_ilu0) #[3, 2, 2] #[1, 1, 1] #[] rfl rfl exA_solves
+-- ILU(k) as written violates the on-pattern identity: the minimal input of finding C06-iluk-dropped-contributions
+/-- rows `{0:4, 1:1} {1:4, 4:1} {2:4, 4:1} {0:1, 2:1, 3:4} {4:4}` -/
+def exK : CRS ℚ := ⟨5, #[[(0, 4), (1, 1)], [(1, 4), (4, 1)], [(2, 4), (4, 1)], [(0, 1), (2, 1), (3, 4)], [(4, 4)]]⟩
+/-- the ILU(1) factors `iluk.hpp` produces for `exK` -/
+def exKF : IluFactors ℚ :=
+  ⟨⟨5, #[[], [], [], [(0, 1/4), (1, -1/16), (2, 1/4)], []]⟩, ⟨5, #[[(1, 1)], [(4, 1)], [(4, 1)], [(4, -1/4)], []]⟩,
+   #[1/4, 1/4, 1/4, 1/4, 1/4]⟩
+/-- **Counterexample to the ILU(k) clause for the code as written.**  On `exK` with `k = 1`: position `(3,4)` is
+admitted (level 1 through pivot 2), the model of `iluk.hpp` returns `exKF`, and `((I+L)(D⁻¹+U))_34 = −1/16 ≠ 0 = a_34`:
+the level-2 contribution `−l_31·u_14` was discarded because it arrived before the slot `(3,4)` existed. -/
+theorem iluk_not_on_pattern_counterexample :
+    ilukFactor 1 exK = .ok exKF ∧ patLevel exK 1 3 4 = true ∧ exK.get 3 4 = 0 ∧ luEntry exKF 5 3 4 = -1/16
+    ∧ luOnPatternb (patLevel exK 1) exK exKF = false := by decide +kernel
+/-- with `k = 2` nothing is discarded on this matrix and the identity holds (the factorisation is exact) -/
+theorem iluk_level2_example :
+    (match ilukFactor 2 exK with
+      | .ok F => luOnPatternb (patLevel exK 2) exK F && luExactb exK F
+      | _ => false) = true := by decide +kernel
 -- SPAI-1 checker: for a diagonal matrix the exact inverse satisfies the normal equations
 example : leastSquaresRowsb (⟨2, #[[(0, 2)], [(1, -4)]]⟩ : CRS ℚ) ⟨2, #[[(0, 1/2)], [(1, -1/4)]]⟩ = true := by
   decide +kernel
